@@ -232,20 +232,32 @@ CLAIMED = {
         ref='DESIGN.md §7 C18'),
     'C03': dict(
         technique='Lean 4 proof (refinement of a map specification by induction over the call history; characterisation of '
-                  'eval_single_state / eval_all_states for every environment and every hash-map iteration order) + differential '
-                  'correspondence run against the real CSM',
+                  'eval_single_state / eval_all_states for every environment and every hash-map iteration order) about CSM, '
+                  'CausalState::eval / eval_with_data and CausalAction::fire as regenerated from their current source by the '
+                  'fail-closed translator tools/rs2lean_csm.py (forking symbolic execution -> Gen/Csm.lean; Props/C03Gen.lean '
+                  'proves every generated definition equal to the model, the table operations up to the order of the association '
+                  'list, for all inputs) + differential correspondence run against the real CSM',
         text='Theorems c03_run_refines_map / c03_history_is_map: for every history of new/add/remove/update/update_all/eval calls '
              '(each evaluation with its own pattern of failing causal functions and failing actions) the model table denotes exactly '
              'the map Nat -> Option (state, action) of the specification and every call returns the prescribed outcome and effect log; '
              'c03_failed_call_unchanged, c03_add_existing_fails, c03_absent_fails: failures have no side effects; '
              'c03_evalSingle_fires_iff: the causaloid is evaluated once on the supplied data, exactly [current action] fires iff the '
              'verdict is Ok(true), errors surface; c03_evalAll_ok_fires_exactly / c03_evalAll_err_prefix for every permutation of the '
-             'registered ids; c03_len_counts_registered. The model (association list mirroring the HashMap calls and guard clauses of '
-             'csm_types/mod.rs) is executed against the real CSM on generated histories of 1-60 calls with forced id collisions and '
-             'fault patterns, plus an exhaustive small scope.',
-        note='Trusted: Lean kernel, the hand-written model Model/Csm.lean (tied to the code only by the correspondence run), the '
-             'harness fixtures (verdict decoded from the data value, global fault switch/mask, effect log), HashMap iteration order '
-             'taken from the observed log and validated as a duplicate-free enumeration of the registered ids.',
+             'registered ids; c03_len_counts_registered. Tie to the source: Props/C03Gen.lean — state_eval_eq, '
+             'state_eval_with_data_eq, action_fire_eq, len_eq, is_empty_eq, eval_single_state_eq, eval_all_states_eq (generated = '
+             'model for every key function, environment, table and enumeration order), new_sim, add/update/remove_single_state_sim, '
+             'update_all_states_sim (same answers and tables holding the same pair under every id, started from such tables), '
+             'genStep_sim / genRun_sim for every history, and the laws restated on the generated definitions: c03gen_run_refines_map, '
+             'c03gen_failed_call_unchanged, c03gen_evalSingle_fires_iff, c03gen_evalAll_ok_fires_exactly, c03gen_evalAll_err_prefix, '
+             'c03gen_len_counts_registered. Correspondence: the model is executed against the real CSM on generated histories of 1-60 '
+             'calls with forced id collisions and fault patterns, plus an exhaustive small scope.',
+        note='Trusted: Lean kernel, rs2lean_csm.py (~1750 lines + rsblock.py/rsexpr.py: parser, forking symbolic executor, renderer; '
+             'grammar and the meaning given to HashMap / RefCell / Option / Result calls in its docstring; refuses anything else, a path '
+             'that reaches a panic, a second live RefCell borrow), Model/CsmPrim.lean (the association list standing for the HashMap) '
+             'and Spec/Csm.lean (Env, Ev, Out), the harness fixtures (verdict decoded from the data value, global fault switch/mask, '
+             'effect log), HashMap iteration order taken from the observed log and validated as a duplicate-free enumeration of the '
+             'registered ids, usize arithmetic without overflow, #[derive(Getters)] = field readers. Model/Csm.lean is no longer '
+             'trusted for C03: it is proved equal (up to list order) to the generated definitions.',
         ref='DESIGN.md §7 C03'),
     'C04': dict(
         technique='Lean 4 proof: inductive invariants over all interleavings of a pc-machine model of the pipeline (one step per '
